@@ -85,7 +85,7 @@ func genSubMgr(s src, c cellSpec, base *params) *tcase {
 	tc.P.IdleS = pick(s, "idle", []int{60, 300})
 	tc.P.SessS = pick(s, "sess", []int{120, 600})
 	if chance(s, "vlan", 2, 3) {
-		tc.P.STag = uint16(s.intn("stag", 1, 4094))
+		tc.P.STag = uint16(s.intn("stag", 1, 3999)) // background sessions use S-tags 4001.. : VLAN pairs are unique per subscriber (C20), never shared
 		tc.P.CTag = uint16(s.intn("ctag", 1, 4094))
 	}
 	if chance(s, "cid", 2, 3) {
@@ -519,7 +519,7 @@ func runSubMgrInBubble(tc *tcase, rs *radServer, res *result, dir string) {
 			DownloadRateBps: 200_000_000, UploadRateBps: 20_000_000, IPv4PoolID: "isp-residential"}
 	}
 	for i, m := range p.BgMACs {
-		b := &smSess{mac: net.HardwareAddr(m), cid: []byte(fmt.Sprintf("bg/%d", i)), stag: 7, ctag: uint16(100 + i)}
+		b := &smSess{mac: net.HardwareAddr(m), cid: []byte(fmt.Sprintf("bg/%d", i)), stag: uint16(4001 + i), ctag: uint16(100 + i)}
 		okAuth(b.mac, 240*time.Hour)
 		if !x.establish(b, fmt.Sprintf("bg%d", i), "active") {
 			return
